@@ -81,6 +81,9 @@ CONFIG = dict(
     rule="per case: fresh node; 34 verify ops (17 transaction kinds x signed flag) before and after; every route's documented request once; "
          "450 (quick) / 800 (thorough) generated requests per case over all routes of the regenerated table with per-parameter "
          "valid(65%)/malformed/duplicated/empty/missing choice, JSON bodies with type confusion and structural mutations, encoded transactions "
-         "of 20 kinds (valid, spending spent/unknown/mixed inputs, confirmed, pooled, unsigned, truncated, bit-flipped, ...); 30 / 300 cases. "
+         "of 20 kinds (valid, spending spent/unknown/mixed inputs, confirmed, pooled, unsigned, truncated, bit-flipped, ...) plus 4 valid bases "
+         "over real wallet/key unspents x 33 structural mutations (signature array shorter/longer than the inputs, no/duplicate/unknown/spent "
+         "inputs, stale/zero inner hash, wrong Length/Type, empty/null/zero/overflowing outputs) sent to the sign / verify / inject endpoints "
+         "with matching, locked, wrong and missing wallets and in-range / out-of-range / duplicated / over-long sign_indexes; 30 / 300 cases. "
          "distinct = distinct (op, outcome) lines",
 )
